@@ -12,12 +12,14 @@ static const char* FL[4] = { "use", "freeing", "no", "never" };
 void verif_log(int kind, const volatile void* addr, unsigned long long a, unsigned long long b, int ok) {
   if (QUIET || !vs_enabled || vs_tid < 0 || !PAGE) return;
   static const char* K[] = { "", "casw", "cass", "load", "store", "xchg", "add", "and", "or", "", "", "sub" };
+  char own[64] = "";   // owner events carry the heads of the owner-local lists, so that the validator can place owner-local steps
+  if (vs_tid == 0) snprintf(own, sizeof(own), " | lf=%ld fr=%ld", blk((uintptr_t)PAGE->local_free), blk((uintptr_t)PAGE->free));
   if (addr == (void*)&PAGE->xthread_free) {
-    if (kind <= 2) printf("E t%d %s xtf (%ld,%s)->(%ld,%s) %s\n", vs_tid, K[kind], blk(a), FL[a & 3], blk(b), FL[b & 3], ok ? "ok" : "fail");
-    else printf("E t%d %s xtf (%ld,%s)\n", vs_tid, K[kind], blk(a), FL[a & 3]); }
+    if (kind <= 2) printf("E t%d %s xtf (%ld,%s)->(%ld,%s) %s%s\n", vs_tid, K[kind], blk(a), FL[a & 3], blk(b), FL[b & 3], ok ? "ok" : "fail", own);
+    else printf("E t%d %s xtf (%ld,%s)%s\n", vs_tid, K[kind], blk(a), FL[a & 3], own); }
   else if (addr == (void*)&HEAP->thread_delayed_free) {
-    if (kind <= 2) printf("E t%d %s dl %ld->%ld %s\n", vs_tid, K[kind], blk(a), blk(b), ok ? "ok" : "fail");
-    else printf("E t%d %s dl %ld\n", vs_tid, K[kind], blk(a)); }
+    if (kind <= 2) printf("E t%d %s dl %ld->%ld %s%s\n", vs_tid, K[kind], blk(a), blk(b), ok ? "ok" : "fail", own);
+    else printf("E t%d %s dl %ld%s\n", vs_tid, K[kind], blk(a), own); }
   else if (addr == (void*)&PAGE->xheap) { printf("E t%d %s xheap\n", vs_tid, K[kind]); }
 }
 enum { NB = 40 }; static void* blocks[NB]; static volatile int given[NB];
